@@ -74,6 +74,10 @@ def eval_tree(tree, env, t=0.0, vol=1.0, mp=None, track=None):
                 raise Undefined("0^nonpositive")
             if b < 0 and float(e) != int(float(e)):
                 raise Undefined("negative base, fractional exponent")
+            if track is not None and b == 0 and float(e) != int(float(e)):
+                # a root of exactly zero: a product such as (-1) * 0 under a root is 0 as written, but any algebraically
+                # equivalent factored form passes through the root of a negative number
+                track["root_of_zero"] = True
             if mp is not None:
                 v = mp.power(b, e)
                 if isinstance(v, mp.mpc):
